@@ -259,14 +259,35 @@ REJECTS = [
     ("quantile-out-of-range", ["-m", "quantilescore", "-q", "1.5"]),
     ("quantile-out-of-range", ["-m", "quantilescore", "-q", "-0.1"]),
     ("quantile-out-of-range", ["-m", "mae", "-agg", "1.5"]),
+    # the range test must hold for every element of the list, wherever it stands, and whatever the metric reads
+    ("quantile-out-of-range", ["-m", "mae", "-q", "1.5"]),
+    ("quantile-out-of-range", ["-m", "mae", "-q", "-0.1"]),
+    ("quantile-out-of-range", ["-m", "mae", "-q", "0.5,1.5,0.9"]),
+    ("quantile-out-of-range", ["-m", "mae", "-q", "1.5,0.5"]),
+    ("quantile-out-of-range", ["-m", "mae", "-q", "0.5,-0.1"]),
+    ("quantile-out-of-range", ["-m", "mae", "-q", "0.1,-0.1,0.9"]),
+    ("quantile-out-of-range", ["-m", "mae", "-q", "0.2:0.7:1.6"]),
+    ("quantile-out-of-range", ["-q", "0.5,1.5,0.9", "-m", "mae"]),
+    ("nonpositive-T", ["-T", "0", "-m", "mae"]),
+    ("range-arity", ["-latrange", "10", "-m", "mae"]),
+    ("range-arity", ["-m", "mae", "-latrange", "10,20,30"]),
+    ("range-arity", ["-m", "mae", "-elevrange", "5,6,7"]),
+    ("range-arity", ["-m", "mae", "-obsrange", "1"]),
+    ("range-arity", ["-m", "mae", "-lonrange", "7"]),
     ("missing-config", ["-m", "mae", "--config"]),
     ("unknown-type", ["-m", "mae", "-type", "table"]),
     ("unknown-maptype", ["-m", "mae", "-type", "map", "-maptype", "moon"]),
 ]
 
 
+VALUE_FLAGS = ["-m", "-x", "-agg", "-r", "-q", "-b", "-obs", "-fcst", "-c", "-C", "-T", "-Tagg", "-Tx", "-t", "-d", "-tod", "-o",
+               "-l", "-lx", "-latrange", "-lonrange", "-elevrange", "-obsrange", "-leg", "-f", "-type"]
+
+
 def reject_items(tier):
     items = [{"cls": c, "args": a, "file": "good"} for c, a in REJECTS]
+    for fl in VALUE_FLAGS:
+        items.append({"cls": "flag-without-value", "args": (["-m", "mae", fl] if fl != "-m" else ["-x", "leadtime", "-m"]), "file": "good"})
     items += [{"cls": "unreadable-file", "args": ["-m", "mae"], "file": "missing"},
               {"cls": "invalid-file", "args": ["-m", "mae"], "file": "garbage-text"},
               {"cls": "invalid-file", "args": ["-m", "mae"], "file": "header-only-nodata"},
@@ -319,6 +340,45 @@ def check_reject(case, ctx):
     else:
         ctx.label("rejected-cleanly")
     ctx.sample({"class": case["cls"], "args": case["args"], "file": kind, "outcome": "exception %s" % r.exc_key if r.exc else "exit %r: %s" % (r.exit, (r.error_lines() or [""])[0][:80])})
+
+
+def reject_gen_strategy(tier):
+    """Generated invalid command lines: the offending element stands anywhere in its list and the offending option
+    anywhere among valid ones."""
+    fmt = lambda v: ("%d" % v) if float(v) == int(v) else repr(float(v))
+
+    @st.composite
+    def s(draw):
+        cls = draw(st.sampled_from(["quantile-out-of-range", "quantile-out-of-range", "range-arity", "nonpositive-T", "agg-out-of-range"]))
+        if cls == "quantile-out-of-range":
+            good = draw(st.lists(st.sampled_from([0.0, 0.1, 0.25, 0.5, 0.9, 1.0]), min_size=0, max_size=3))
+            bad = draw(st.sampled_from([1.5, -0.1, 1.001, -1.0, 2.0, 100.0, -0.001]))
+            pos = draw(st.integers(0, len(good)))
+            vals = good[:pos] + [bad] + good[pos:]
+            bad_args = ["-q", ",".join(fmt(v) for v in vals)]
+        elif cls == "range-arity":
+            fl = draw(st.sampled_from(["-latrange", "-lonrange", "-elevrange", "-obsrange"]))
+            k = draw(st.sampled_from([1, 3, 4]))
+            vals = sorted(draw(st.lists(st.integers(-50, 50), min_size=k, max_size=k)))
+            bad_args = [fl, ",".join(fmt(v) for v in vals)]
+        elif cls == "nonpositive-T":
+            bad_args = ["-T", draw(st.sampled_from(["0", "-1", "-3", "-12", "-240"]))]   # -T takes an integer: integer literals only
+            if draw(st.booleans()):
+                bad_args += ["-Tagg", draw(st.sampled_from(["mean", "sum", "max"]))]
+        else:
+            bad_args = ["-agg", draw(st.sampled_from(["1.5", "2", "1.0001", "10"]))]
+        metric = draw(st.sampled_from(["mae", "bias", "corr", "rmse"]))
+        valid = [["-m", metric]]
+        for extra in draw(st.lists(st.sampled_from([["-x", "leadtime"], ["-x", "time"], ["-type", "csv"], ["-type", "text"], ["-leg", "A"], ["-b", "above"]]),
+                                   max_size=2, unique_by=lambda e: e[0])):
+            valid.append(extra)
+        valid = list(draw(st.permutations(valid)))
+        pos = draw(st.integers(0, len(valid)))
+        args = [a for grp in valid[:pos] for a in grp] + bad_args + [a for grp in valid[pos:] for a in grp]
+        if "-type" not in args:
+            args += ["-type", "csv"]
+        return {"cls": cls, "args": args, "file": "good"}
+    return s()
 
 
 # ------------------------------------------------------------------------------------------
@@ -646,6 +706,7 @@ def campaigns(tier):
         Enum("vector-grid", vector_items, check_vector, "24x24 start/end values x 10 steps in blocks of 200, three spellings each"),
         Enum("date-ranges", date_items, check_dates, "all date pairs (every 3rd day) within +-40 days of 9 boundary dates x steps 1,7,31"),
         Enum("reject", reject_items, check_reject, "the documented rejection classes"),
+        Hyp("reject-gen", reject_gen_strategy, check_reject, quick=960, thorough=20000, budget_quick=40, budget_thorough=600),
         Hyp("vector-fuzz", fuzz_strategy, check_fuzz, quick=8000, thorough=400000, budget_quick=30, budget_thorough=600),
         Hyp("commands", cmd_strategy, check_cmd, quick=2400, thorough=40000, budget_quick=60, budget_thorough=1800),
     ]
